@@ -8,6 +8,8 @@ R5.4 running counter: starts at 1 outside both loops, stored into the atom-numbe
      incremented exactly once per written line, never reset
 R5.5 title and box forwarded before the first write (the header is emitted by the first write)
 R5.6 residue numbers (C04/R4.5) and frames for small references (C02/R2.3)
+R5.5 also: box line written completely (C13/R13.4); title stored, written and read unchanged (C13/R13.6)
+R11.1/R11.3 (shared with C11): the system that is iterated lists every instance, in file order
 """
 from __future__ import annotations
 
@@ -211,3 +213,9 @@ def run(ctx: Ctx):
     # the box line is written completely (C13/R13.4)
     from . import c13
     c13.r13_4(ctx, rule="R5.5")
+    # the title travels unchanged through the writer's setter and header (C13/R13.6)
+    c13.r13_6(ctx, rule="R5.5")
+    # the molecules iterated are the file's instances, all of them, in file order (C11/R11.1, R11.3)
+    from . import c11
+    c11.r11_1_2(ctx)
+    c11.r11_3(ctx)
